@@ -42,6 +42,10 @@ def tensv (A : M3 K) : Nat → K
 def mandv (c : K) (A : M3 K) : Nat → K
   | 0 => A.a00 | 1 => A.a11 | 2 => A.a22 | 3 => c * A.a01 | 4 => c * A.a02 | 5 => c * A.a12 | _ => 0
 
+/-- the six independent entries of a symmetric matrix, read in the upper / lower triangle -/
+def upper (A : M3 K) : List K := [A.a00, A.a11, A.a22, A.a01, A.a02, A.a12]
+def lower (A : M3 K) : List K := [A.a00, A.a11, A.a22, A.a10, A.a20, A.a21]
+
 /-! ## fourth-order objects: stored matrix × stored vector -/
 def dot : List K → List K → K
   | a :: as, b :: bs => a * b + dot as bs
